@@ -9,8 +9,9 @@ The statement is relative to a lexer (no lexer model in this component): `lexFil
 source text to the token stream of the two lexer modes.  Parts 1 and 2 are FALSE of the code as it
 stands; the witnesses below are kernel-evaluated facts about the parser model on the token streams
 the REAL lexer produces (re-derived from the real code on every run by the known-finding replay of
-the `parse15` suite).  Not proved: part 1 for programs outside the recorded class (a simulation
-between the two runs, which differ only in the end marker) — left to the correspondence run.
+the `parse15` suite).  Part 1 for programs outside the recorded class is proved in `Props/C15Sim.lean`
+(`same_tree_partial`: a simulation between the two runs, which differ only in the end marker), at the
+token-stream level; that line mode's lexer yields `asLine` of file mode's stream is left to the correspondence run.
 -/
 namespace Grol.C15
 open Grol Grol.Wire Grol.Parser Grol.Generated Grol.Front
